@@ -73,6 +73,9 @@ var corpus = []pat{
 	{`(a|b)\1+c?`, oE, []string{"a", "b", "aa", "bb", "c", "ab"}, "ecma backreference"},
 	{`(?P<word>\w+)-(?P<num>\d+)`, oRE2, []string{"ab", "-", "12", "x-7", " ", "é"}, "re2 named"},
 	{`(?<a>x)|(?<b>y)`, oN | oRTL, []string{"x", "y", "xy", "z"}, "explicitcapture rtl"},
+	// alternations of literals (with OptionIsCodeGen the candidate search looks for the leading strings)
+	{`(?:at|tiger|elephants|otter|inn|sea)=(\d+)`, 0, []string{"at=1", "sea=22", "tiger=3 ", "otter", "=4", " inn=5", "x"}, "leading strings"},
+	{`(?:foo|bar|bazz)\w*`, 0, []string{"foo", "bar1", "bazz_", "ba", " ", "fo", "xbar"}, "leading strings short"},
 	// anchors and start positions: \G chains, \A, \z, \Z, end anchors right-to-left
 	{`\G(\d)`, 0, []string{"1", "2", "a", "12", " 3", "é"}, "G anchor"},
 	{`\A(\w+)|(\d+)\z`, 0, []string{"ab", "12", " ", "x9", "\n", "é"}, "A and z anchors"},
